@@ -126,3 +126,42 @@ def group_sweep():
 if __name__ == "__main__":
     for b in offsets_sweep() + group_sweep():
         print(b)
+
+
+def partitions_sweep():
+    """AddPartitionsToTxnHandler.handle_response on the real classes: the handler is created over the manager's live
+    pending set (as Sender._maybe_do_transactional_request does), the request goes out for what is pending then, further
+    partitions join the pending set while it is in flight, and the coordinator answers for the requested ones with every
+    pair of codes. A partition is 'added' afterwards exactly if the coordinator answered NoError for it."""
+    import asyncio
+    from aiokafka.producer.sender import AddPartitionsToTxnHandler
+    from aiokafka.protocol.transaction import AddPartitionsToTxnResponse_v0
+    from aiokafka.structs import TopicPartition
+
+    async def main():
+        bad = []
+        t0, t1, late = TopicPartition("t", 0), TopicPartition("t", 1), TopicPartition("u", 0)
+        for c0 in CODES + (29,):
+            for c1 in CODES + (29,):
+                for joins_in_flight in (False, True):
+                    for answer in ([("t", [(0, c0), (1, c1)])], [("t", [(1, c1), (0, c0)])], [("t", [(0, c0)]), ("t", [(1, c1)])]):
+                        tm = _manager()
+                        tm.maybe_add_partition_to_txn(t0)
+                        tm.maybe_add_partition_to_txn(t1)
+                        snd = _Sender(tm)
+                        h = AddPartitionsToTxnHandler(snd, tm.partitions_to_add())
+                        h.create_request()
+                        if joins_in_flight:
+                            tm.maybe_add_partition_to_txn(late)
+                        try:
+                            h.handle_response(AddPartitionsToTxnResponse_v0(0, answer))
+                        except Exception:
+                            pass
+                        acked = {tp for tp, code in ((t0, c0), (t1, c1)) if code == 0}
+                        added = set(tm._txn_partitions)
+                        if not added <= acked:
+                            bad.append("codes (%d, %d)%s: %s became writable, the coordinator acknowledged %s"
+                                       % (c0, c1, ", a partition joined while in flight" if joins_in_flight else "",
+                                          sorted(added - acked), sorted(acked)))
+        return bad
+    return asyncio.run(main())
